@@ -100,6 +100,26 @@ def cmdChunkBuffered (a : Args) : String :=
   | some data =>
     pairsStr (Buffered.all (paramsOf a) (data.length + 1) ⟨⟨data, natList (a.get "frags")⟩, [], 0, false⟩)
 
+/-- `chunk.ops … ops=N,A17,N,N,A4096,N` : a sequence of `Next()` (N) and `Advance(n)` (A<n>) calls on a
+    chunker over a seekable reader; prints `start:size` per `Next` (`0`-size = end of stream) -/
+def cmdChunkOps (a : Args) : String :=
+  match a.bytes "data" with
+  | none => "bad-op"
+  | some data =>
+    let p := paramsOf a
+    let ops := if (a.get "ops").isEmpty then [] else (a.get "ops").splitOn ","
+    let rec go (ops : List String) (c : Buffered) (acc : List String) : List String :=
+      match ops with
+      | [] => acc.reverse
+      | op :: rest =>
+        if op == "N" then
+          let ((s, b), c') := c.next p
+          go rest c' (s!"{s}:{b.length}" :: acc)
+        else
+          let n := (op.drop 1).toNat?.getD 0
+          go rest (c.advance n) acc
+    String.intercalate "," (go ops ⟨⟨data, natList (a.get "frags")⟩, [], 0, false⟩ [])
+
 def cmdChunkDisc (a : Args) : String := toString (Gen.discriminatorFromAvg (a.u64 "avg")).toNat
 
 def cmdSip (a : Args) : String :=
@@ -530,6 +550,7 @@ def runLine (l : String) : String :=
     | "idx.decode" => cmdIdxDecode a
     | "idx.encode" => cmdIdxEncode a
     | "chunk.all" => cmdChunkAll a
+    | "chunk.ops" => cmdChunkOps a
     | "hash" => cmdHash a
     | "ip.ops" => cmdIpOps a
     | "http.retry" => cmdHttpRetry a
